@@ -146,3 +146,6 @@ if __name__ == "__main__" and sys.argv[1] == "import2":
     # second round: /tmp/wt2/<pid>/out/A|B  ->  seeded/<pid>-C|D
     d = imp(sys.argv[2], sys.argv[3], root="/tmp/wt2", name={"A": "C", "B": "D"}[sys.argv[3]])
     confirm(d)
+if __name__ == "__main__" and sys.argv[1] == "import3":
+    d = imp(sys.argv[2], sys.argv[3], root="/tmp/wt3", name={"A": "C", "B": "D"}[sys.argv[3]])
+    confirm(d)
